@@ -1079,8 +1079,156 @@ func main() {
 	sequential(env, rep, rng.Fork()) // every call inside is under its own watchdog
 	phase("concurrent", deadline/2, func() { concurrent(env, rep, rng.Fork()) })
 	phase("timed", time.Minute, func() { timed(env, rep) })
+	phase("timed-under-clock-delta", 2*time.Minute, func() { timedUnderDelta(env, rep) })
+	phase("callback-window", time.Minute, func() { callbackWindow(env, rep) })
 	phase("known-findings", 30*time.Second, func() { knownFindings(rep) })
 	_ = sort.Ints
 	rep.Write(env.Out)
 	os.Exit(0) // goroutines of operations that never returned are abandoned
+}
+
+// ---------------------------------------------------------------- PutForce must stay atomic around its callbacks
+
+// callbackWindow: the queue is full; a forced put evicts and calls Overflowed.  From inside the
+// callback another goroutine tries a plain Put (another goroutine, because on the code as it stands the
+// callback runs under the queue's lock and a direct call would self-deadlock); the callback waits up to
+// 150 ms for it.  Atomicity of PutForce demands that this Put takes effect either before the eviction or
+// after the forced element was added: it is refused (the queue is full again) or still blocked when
+// PutForce returns — and the queue never holds more than `capacity` elements.
+func callbackWindow(env *vh.Env, rep *vh.Report) {
+	reps := 3
+	if env.Thorough {
+		reps = 20
+	}
+	for _, dbl := range []bool{false, true} {
+		for _, capacity := range []int{1, 2, 5} {
+			for r := 0; r < reps; r++ {
+				var putForce func(v interface{}) bool
+				var put func(v interface{}) bool
+				var size func() int
+				var once sync.Once
+				innerDone := make(chan bool, 1)
+				var innerReturnedInFlight int32
+				inFlight := int32(0)
+				cb := func(v interface{}) {
+					once.Do(func() {
+						go func() {
+							ok := put(9999)
+							if atomic.LoadInt32(&inFlight) == 1 {
+								atomic.StoreInt32(&innerReturnedInFlight, 1)
+							}
+							innerDone <- ok
+						}()
+						select {
+						case ok := <-innerDone:
+							innerDone <- ok
+						case <-time.After(150 * time.Millisecond):
+						}
+					})
+				}
+				if dbl {
+					d := queue.NewRequestDoubleQueue(capacity, capacity)
+					if !setDoubleCB(d, func(interface{}) {}, cb) {
+						continue
+					}
+					putForce, put, size = d.PutForce1, d.Put1, d.Size1
+				} else {
+					q := queue.NewRequestQueue(capacity)
+					q.Overflowed = cb
+					putForce, put, size = q.PutForce, q.Put, q.Size
+				}
+				for i := 1; i <= capacity; i++ {
+					put(i)
+				}
+				atomic.StoreInt32(&inFlight, 1)
+				out := vh.GuardTimeout(5*time.Second, func() { putForce(1000) })
+				atomic.StoreInt32(&inFlight, 0)
+				name := qname(dbl)
+				rep.Case(fmt.Sprintf("callback-window %s cap=%d", name, capacity), true)
+				rep.Count("callback-window:runs")
+				if !out.OK() {
+					rep.Fail("property", name+".PutForce:"+out.String(), "PutForce with an Overflowed callback that waits for a concurrent Put did not return", map[string]interface{}{"capacity": capacity})
+					return
+				}
+				accepted, finished := false, false
+				select {
+				case accepted = <-innerDone:
+					finished = true
+				case <-time.After(2 * time.Second):
+				}
+				sz := -1
+				vh.GuardTimeout(2*time.Second, func() { sz = size() })
+				replay := map[string]interface{}{"type": name, "capacity": capacity, "size_after": sz, "inner_put_accepted": accepted, "inner_put_finished": finished,
+					"inner_put_returned_while_putforce_in_flight": atomic.LoadInt32(&innerReturnedInFlight) == 1,
+					"how": "fill the queue to capacity; Overflowed callback starts a goroutine doing Put(9999) and waits ≤150 ms for it; call PutForce(1000); then read Size()"}
+				switch {
+				case sz > capacity:
+					rep.Fail("property", name+".PutForce:bounded",
+						fmt.Sprintf("%s capacity %d: a plain Put issued while PutForce was running its Overflowed callback was accepted, and the forced element was added on top: Size() = %d > capacity", name, capacity, sz), replay)
+					return
+				case accepted && atomic.LoadInt32(&innerReturnedInFlight) == 1:
+					rep.Fail("property", name+".PutForce:not-atomic",
+						fmt.Sprintf("%s capacity %d: a plain Put was accepted in the middle of a PutForce (between its eviction and its add)", name, capacity), replay)
+					return
+				}
+			}
+		}
+	}
+}
+
+// ---------------------------------------------------------------- timed get under a server-time delta
+
+// timedUnderDelta: dateutil keeps a server-time correction (SetDelta / SetServerTime) that shifts Now()
+// but not SystemNow().  The timed get's bound is about elapsed time, so it must hold for every delta.
+func timedUnderDelta(env *vh.Env, rep *vh.Report) {
+	saved := dateutil.GetDelta()
+	defer dateutil.SetDelta(saved)
+	type dcase struct {
+		name  string
+		delta func(ms int) int64
+	}
+	cases := []dcase{
+		{"0", func(int) int64 { return 0 }},
+		{"+1s", func(int) int64 { return 1000 }},
+		{"-1s", func(int) int64 { return -1000 }},
+		{"+1h", func(int) int64 { return 3600000 }},
+		{"-1h", func(int) int64 { return -3600000 }},
+		{"-timeout/2", func(ms int) int64 { return -int64(ms) / 2 }},
+		{"+timeout/2", func(ms int) int64 { return int64(ms) / 2 }},
+	}
+	for _, dbl := range []bool{false, true} {
+		for _, dc := range cases {
+			for _, ms := range []int{10, 40} {
+				var get func(int) interface{}
+				if dbl {
+					get = queue.NewRequestDoubleQueue(2, 2).GetTimeout
+				} else {
+					get = queue.NewRequestQueue(2).GetTimeout
+				}
+				dateutil.SetDelta(dc.delta(ms))
+				before := dateutil.SystemNow()
+				var v interface{}
+				out := vh.GuardTimeout(time.Duration(ms)*time.Millisecond+5*time.Second, func() { v = get(ms) })
+				after := dateutil.SystemNow()
+				dateutil.SetDelta(saved)
+				name := qname(dbl)
+				rep.Case(fmt.Sprintf("timed-delta %s %s %dms", name, dc.name, ms), true)
+				rep.Count("timed:clock-delta " + dc.name)
+				replay := map[string]interface{}{"type": name, "timeout_ms": ms, "server_time_delta": dc.name, "elapsed_ms": after - before,
+					"how": "dateutil.SetDelta(delta); GetTimeout(timeout) on an empty queue; elapsed measured with dateutil.SystemNow()"}
+				switch {
+				case out.Timeout:
+					rep.Fail("property", name+".GetTimeout:never-returns-under-clock-delta",
+						fmt.Sprintf("GetTimeout(%d) on an empty queue with server-time delta %s had not returned %d ms + 5 s later", ms, dc.name, ms), replay)
+				case !out.OK():
+					rep.Fail("property", name+".GetTimeout:panic", "GetTimeout panicked: "+vh.Clip(out.Panic, 100), replay)
+				case v != nil:
+					rep.Fail("property", name+".GetTimeout:phantom-element", "GetTimeout on an empty queue returned an element", replay)
+				case int(after-before) < ms:
+					rep.Fail("property", name+".GetTimeout:returned-early",
+						fmt.Sprintf("GetTimeout(%d) on an empty queue with server-time delta %s returned empty-handed after %d ms", ms, dc.name, after-before), replay)
+				}
+			}
+		}
+	}
 }
